@@ -300,7 +300,7 @@ func (p LLDP) getTLV(n int) (t int, l int, v []byte, err error) {
 		return t, l, nil, nil
 	}
 	if len(p) > n+2+int(l)+2 {
-		return t, l, p[n+2 : n+l], nil
+		return t, l, p[n+2 : n+2+l], nil
 	}
 	return 0, 0, nil, ErrParseFrame
 }
